@@ -27,9 +27,28 @@ def run(prog: Program, rep: Report, tier: str):
     from .c11 import rule_reparam
     rule_reparam(prog, rep, R="C12.nested")
     rule_ctor_keeps_wrappers(prog, rep)
+    rule_merge_keeps_wrappers(prog, rep)
     if tier == "thorough":
         from ..audit import audit_generic
         audit_generic(prog, rep, "C12")
+
+
+def rule_merge_keeps_wrappers(prog, rep, R="C12.merge-kept"):
+    """Chain.merge_chains (reached by merge_transforms) only regroups: a member that is a wrapper node (a NonTrainable
+    stage, a parameterised member) must come out as that same node, or a frozen stage becomes trainable after a merge."""
+    from .bij import method_site as _ms
+    from .merge import merge_chains_by_evaluation, CHAIN
+    rep.rule(R, "Chain.merge_chains returns the members it was given, wrapper nodes included (partial evaluation on nesting "
+                "shapes with wrapped members): regrouping never unwraps", minimum=1)
+    c = prog.cls(CHAIN)
+    site = _ms(prog, c, "merge_chains")
+    if not merge_chains_by_evaluation(prog, rep, R, c, site, wrapped=True):
+        owner, fn = prog.method(CHAIN, "merge_chains")
+        calls_unwrap = any(isinstance(n, ast.Call) and ast.unparse(n.func).rsplit(".", 1)[-1] == "unwrap" for n in ast.walk(fn))
+        if calls_unwrap:
+            rep.undecided(R, site, "Chain.merge_chains:keeps-wrappers", "merge_chains calls unwrap and is outside the evaluated subset")
+        else:
+            rep.holds(R, site, "Chain.merge_chains:keeps-wrappers", "merge_chains does not call unwrap", nontrivial=False)
 
 
 def rule_ctor_keeps_wrappers(prog, rep, R="C12.kept"):
